@@ -79,9 +79,21 @@ def _work(args):
     mod = load_prop(prop)
     res = eval_cases(mod, chunk)
     fails, hist, nontriv = [], {}, []
+    known_sigs = {f.get('signature'): f['id'] for f in load_findings(prop) if f.get('signature')}
     for c, io, rep, v in res:
         if not v['ok']:
-            fails.append((c, io, rep, v))
+            sig = None
+            if known_sigs and v.get('kind') != 'harness' and hasattr(mod, 'signature'):
+                try:
+                    sig = mod.signature(c, io, rep, v)
+                except Exception:
+                    sig = None
+            if sig in known_sigs:
+                # failures that match a listed known finding are counted, not collected (they must not use up
+                # the failure cap that ends a run early)
+                hist['known-finding:' + known_sigs[sig]] = hist.get('known-finding:' + known_sigs[sig], 0) + 1
+            else:
+                fails.append((c, io, rep, v))
         k = mod.branch(c, io, rep) if hasattr(mod, 'branch') else c.get('stream', '?')
         for kk in (k if isinstance(k, (list, tuple)) else [k]):
             hist[kk] = hist.get(kk, 0) + 1
@@ -242,7 +254,7 @@ def run_check(prop, tier, seed, jobs, budget_s):
         harness_error = traceback.format_exc()
 
     # ---- classify failures -----------------------------------------------------------------
-    known_hits, new_fails = {}, []
+    known_hits, new_fails = {k.split(':', 1)[1]: v for k, v in hist.items() if k.startswith('known-finding:')}, []
     seen_sig = set()
     for c, io, rep, v in fails:
         if v.get('kind') == 'harness':
